@@ -7,6 +7,7 @@
 mod common;
 mod ops_index;
 mod ops_axis;
+mod ops_broadcast;
 
 use common::*;
 use std::io::{BufRead, Write};
@@ -14,6 +15,7 @@ use std::io::{BufRead, Write};
 fn dispatch(op: &str, ty: &str, args: &[Arg]) -> String {
     if let Some(r) = ops_index::dispatch(op, ty, args) { return r; }
     if let Some(r) = ops_axis::dispatch(op, ty, args) { return r; }
+    if let Some(r) = ops_broadcast::dispatch(op, ty, args) { return r; }
     "bad".to_string()
 }
 
